@@ -529,8 +529,8 @@ fn run_history(prop: &str, spec: &WsSpec, ops: &[HOp], root: &Path, scan_first: 
                 reopened.insert(file.clone());
                 live.document_opened(&root.join(file));
                 live.analyze_file(root.join(file), d);
-                live.document_closed(&root.join(file));
                 live.cleanup_file_cache(&root.join(file));
+                live.document_closed(&root.join(file));
                 disturbed = true;
                 res.count("fault.open_close_unmodified");
             }
@@ -539,14 +539,14 @@ fn run_history(prop: &str, spec: &WsSpec, ops: &[HOp], root: &Path, scan_first: 
                 if cur.get(file) != Some(d) {
                     continue;
                 }
-                live.document_closed(&root.join(file));
                 live.cleanup_file_cache(&root.join(file));
+                live.document_closed(&root.join(file));
                 disturbed = true;
                 res.count("fault.close_unmodified");
             }
             HOp::CloseUnsaved { file } => {
-                live.document_closed(&root.join(file));
                 live.cleanup_file_cache(&root.join(file));
+                live.document_closed(&root.join(file));
                 unsaved_close = true;
                 res.count("fault.close_with_unsaved_changes");
             }
